@@ -11,6 +11,7 @@ import mpmath
 from mpmath import mpf
 
 from .. import backends as B
+from .. import engine as E
 from .. import gen
 from .. import laws as L
 from .. import refmodel as R
@@ -145,6 +146,21 @@ def run_shard(spec, tier, seed):
             cell = f"{sname}|axis:{R.sysname(s3)}"
             d3 = {**det, "axis": n_l.describe(), "angle": mpmath.nstr(ang, 25)}
             Ra = rot_invariants("rotate_axis", cell, lambda v: v.rotate_axis(N, na))
+            if mode.name in ("numpy", "awkward") and dim == 4:
+                # the axis is a secondary argument: held in a backend of higher priority than the vector (object vector, array
+                # axis; NumPy vector, Awkward axis) it still rotates a 4-D vector into a 4-D vector with its time untouched
+                import vector as _v
+                lows = [E.mat_obj(ls[0])] + ([B.mk_numpy_cls(ls[0].system, [ls[0].f64()[0]], ls[0].momentum)] if mode.name == "awkward" else [])
+                for low in lows:
+                    try:
+                        mixed = low.rotate_axis(N, na)
+                    except Exception:
+                        res.count("rotate_axis_with_axis_of_higher_priority_raises")
+                        continue
+                    J.exact("rotate_axis about an axis of a higher-priority backend keeps the vector 4-D", cell,
+                            hasattr(mixed, "temporal") and type(mixed).__name__.endswith("4D"), {**d3, "got": type(mixed).__name__})
+                    if hasattr(mixed, "temporal"):
+                        _temporal_untouched(J, cell, "rotate_axis [axis of a higher-priority backend]", low, mixed, det)
             J.vec("rotate_axis ignores the axis length", cell, A.rotate_axis(N2, na), Ra, unit, d3)
             # ... whatever the length: far below and far above any absolute threshold (squares still representable)
             for e_ in (-60, -400, 400):
